@@ -11,7 +11,8 @@
 (* an instance file into a server directory that was removed meanwhile does.  *)
 EXTENDS Naturals, Sequences, FiniteSets
 
-CONSTANTS Srv, Ins, MaxVal
+CONSTANTS Srv, Ins, MaxVal,
+          InnerWD      \* TRUE: the inner level is synchronised with watch_data=True (/endpoints/<proid>), FALSE: /placement
 
 NoInst == [i \in Ins |-> 0]
 
@@ -23,6 +24,15 @@ NotesOf(ws) ==
        IN <<[kind |-> "inner", s |-> w.s, n |-> w.n]>> \o NotesOf(ws \ {w})
 Disarm(st, s) == {IF w.s = s THEN [w EXCEPT !.armed = FALSE] ELSE w : w \in st.iw}
 OuterNote == <<[kind |-> "outer", s |-> "", n |-> 0]>>
+
+(* ExistingDataWatch objects of the inner level (InnerWD): [s, i, n, ver, armed] *)
+DArmedOn(st, s, i) == {w \in st.dw : w.s = s /\ w.i = i /\ w.armed}
+RECURSIVE DNotesOf(_, _)
+DNotesOf(ws, del) ==
+  IF ws = {} THEN <<>>
+  ELSE LET w == CHOOSE x \in ws : \A y \in ws : x.n <= y.n
+       IN <<[kind |-> "data", s |-> w.s, i |-> w.i, n |-> w.n, del |-> del]>> \o DNotesOf(ws \ {w}, del)
+DDisarm(st, s, i) == {IF w.s = s /\ w.i = i THEN [w EXCEPT !.armed = FALSE] ELSE w : w \in st.dw}
 
 (* ---- environment (master, administrators) ---- *)
 CanCreateServer(st, s) == ~st.zs[s]
@@ -37,14 +47,22 @@ DoDeleteServer(st, s) ==      \* the node's own child watches are triggered befo
 
 CanCreateInst(st, s, i) == st.zs[s] /\ st.zi[s][i] = 0
 DoCreateInst(st, s, i, v) ==
-  [st EXCEPT !.zi[s][i] = v, !.q = @ \o NotesOf(ArmedOn(st, s)), !.iw = Disarm(st, s)]
+  [st EXCEPT !.zi[s][i] = v, !.zx = @ + 1, !.zm[s][i] = st.zx + 1,
+             !.q = @ \o NotesOf(ArmedOn(st, s)), !.iw = Disarm(st, s)]
+
+CanSetInst(st, s, i) == st.zs[s] /\ st.zi[s][i] # 0
+DoSetInst(st, s, i, v) ==
+  [st EXCEPT !.zi[s][i] = v, !.zx = @ + 1, !.zm[s][i] = st.zx + 1,
+             !.q = @ \o DNotesOf(DArmedOn(st, s, i), FALSE), !.dw = DDisarm(st, s, i)]
 
 CanDeleteInst(st, s, i) == st.zs[s] /\ st.zi[s][i] # 0
 DoDeleteInst(st, s, i) ==
-  [st EXCEPT !.zi[s][i] = 0, !.q = @ \o NotesOf(ArmedOn(st, s)), !.iw = Disarm(st, s)]
+  [st EXCEPT !.zi[s][i] = 0, !.zm[s][i] = 0, !.zx = @ + 1,
+             !.q = (@ \o DNotesOf(DArmedOn(st, s, i), TRUE)) \o NotesOf(ArmedOn(st, s)),
+             !.iw = Disarm(st, s), !.dw = DDisarm(st, s, i)]
 
 (* ---- process life ---- *)
-Down(st) == [st EXCEPT !.up = FALSE, !.q = <<>>, !.iw = {}, !.oarmed = FALSE]
+Down(st) == [st EXCEPT !.up = FALSE, !.q = <<>>, !.iw = {}, !.dw = {}, !.oarmed = FALSE]
 Die(st) == [Down(st) EXCEPT !.deaths = @ + 1]
 
 (* ---- the inner callback: Zk2Fs._children_watch(<server>, watch_data=False) ---- *)
@@ -56,7 +74,25 @@ InnerBody(st, s) ==
      THEN Die(st)        \* rename into a directory that is not there: OSError, exit_on_unhandled
      ELSE [st EXCEPT !.ionce = @ \cup {s},
                      !.ff[s] = [i \in Ins |-> IF i \in files \ kids THEN 0
-                                             ELSE IF i \in sync THEN st.zi[s][i] ELSE @[i]]]
+                                             ELSE IF i \in sync THEN st.zi[s][i] ELSE @[i]],
+                     \* watch_data: sync_data of a synced child makes a new ExistingDataWatch (get + arm + write)
+                     !.dgen[s] = [i \in Ins |-> IF InnerWD /\ i \in sync THEN @[i] + 1 ELSE @[i]],
+                     !.dw = @ \cup (IF InnerWD
+                                    THEN {[s |-> s, i |-> i, n |-> st.dgen[s][i] + 1, ver |-> st.zm[s][i], armed |-> TRUE] : i \in sync}
+                                    ELSE {})]
+
+(* ExistingDataWatch._get_data + Zk2Fs._data_watch for an inner node *)
+DataRun(st, note) ==
+  LET live == {w \in st.dw : w.s = note.s /\ w.i = note.i /\ w.n = note.n} IN
+  IF live = {} THEN st
+  ELSE LET w == CHOOSE x \in live : TRUE IN
+       IF note.del \/ st.zi[w.s][w.i] = 0
+       THEN [st EXCEPT !.dw = @ \ {w}, !.ff[w.s][w.i] = 0]           \* rm_safe: fine without the directory
+       ELSE IF st.zm[w.s][w.i] = w.ver
+       THEN [st EXCEPT !.dw = (@ \ {w}) \cup {[w EXCEPT !.armed = TRUE]}]
+       ELSE IF ~st.fd[w.s] THEN Die(st)                               \* write into a removed directory
+       ELSE [st EXCEPT !.dw = (@ \ {w}) \cup {[w EXCEPT !.armed = TRUE, !.ver = st.zm[w.s][w.i]]},
+                       !.ff[w.s][w.i] = st.zi[w.s][w.i]]
 
 InnerRun(st, note) ==
   LET live == {w \in st.iw : w.s = note.s /\ w.n = note.n} IN
@@ -88,7 +124,7 @@ CanDeliver(st) == st.up /\ st.q # <<>>
 DoDeliver(st) ==
   LET note == Head(st.q)
       s1 == [st EXCEPT !.q = Tail(@)] IN
-  IF note.kind = "outer" THEN OuterRun(s1) ELSE InnerRun(s1, note)
+  IF note.kind = "outer" THEN OuterRun(s1) ELSE IF note.kind = "data" THEN DataRun(s1, note) ELSE InnerRun(s1, note)
 
 CanStop(st) == st.up
 DoStop(st) == Down(st)
@@ -99,7 +135,8 @@ Init0 ==
   [zs |-> [s \in Srv |-> FALSE], zi |-> [s \in Srv |-> NoInst],
    fd |-> [s \in Srv |-> FALSE], ff |-> [s \in Srv |-> NoInst],
    q |-> <<>>, oarmed |-> TRUE, oonce |-> TRUE, iw |-> {}, gen |-> [s \in Srv |-> 0],
-   ionce |-> {}, up |-> TRUE, deaths |-> 0]
+   ionce |-> {}, up |-> TRUE, deaths |-> 0,
+   zx |-> 0, zm |-> [s \in Srv |-> NoInst], dw |-> {}, dgen |-> [s \in Srv |-> NoInst]]
 
 Proj(st) == [zs |-> st.zs, zi |-> st.zi, fd |-> st.fd, ff |-> st.ff, qlen |-> Len(st.q), up |-> st.up]
 =============================================================================
